@@ -65,7 +65,8 @@ class Fn:
 
 class Unit:
     def __init__(self, name, prop, prove, use=(), types=(), spec='', preludes=('fax_l0', 'stdspec'), level='L0',
-                 broadcast=('l0',), consts=(), extra_modules='', notes='', rlimit=30, raw_items=(), type_spec='', traits=(), nra=()):
+                 broadcast=('l0',), consts=(), extra_modules='', notes='', rlimit=30, raw_items=(), type_spec='', traits=(), nra=(), also=()):
+        self.also = list(also)   # names of units whose functions lie on the call path behind an assumed contract
         self.nra = list(nra)
         self.traits = list(traits)
         self.consts = list(consts)
